@@ -457,7 +457,7 @@ PROPS["C12"] = dict(
     contracts=["parse_range", "wsgi.FileResponse.__call__", "asgi.FileResponse.__call__", "if_none_match", "if_modified_since",
                "check_path_is_file", "URL._build_url", "request.cookies", "request.content_length", "request.date",
                "wsgi.Request.json", "asgi.Request.json", "wsgi.Request.form", "asgi.Request.form",
-               "wsgi.HTTPConnection.url", "asgi.HTTPConnection.url", "MultipartDecoder.next_event[PART]", "URL.__repr__"],
+               "wsgi.HTTPConnection.url", "asgi.HTTPConnection.url", "MultipartDecoder.next_event[PART]", "URL.__repr__", "QueryParams.__init__[bytes]"],
     refute={"quick": [2], "thorough": [1, 2, 3]},
     native="c12",
     level="other",
